@@ -15,6 +15,11 @@ pub struct DatasetSpec {
     pub dates: Vec<i64>,
     /// rows[d][s] = Some((bid, ask)) when symbol s is quoted on date d.
     pub rows: Vec<Vec<Option<(X, X)>>>,
+    /// Load the quotes symbol by symbol (all dates of one symbol, then the next) instead of date by
+    /// date. Only used when some symbol is quoted on every date; that symbol goes first, so dates are
+    /// still first seen in increasing order.
+    #[serde(default)]
+    pub by_symbol: bool,
 }
 
 impl DatasetSpec {
@@ -24,6 +29,20 @@ impl DatasetSpec {
 
     pub fn build(&self) -> Penelope {
         let mut p = Penelope::new();
+        if self.by_symbol {
+            if let Some(full) = (0..self.symbols.len()).find(|s| self.rows.iter().all(|r| r[*s].is_some())) {
+                let mut order: Vec<usize> = vec![full];
+                order.extend((0..self.symbols.len()).filter(|s| *s != full));
+                for s in order {
+                    for (d, date) in self.dates.iter().enumerate() {
+                        if let Some((bid, ask)) = self.rows[d][s] {
+                            p.add_quote(bid.0, ask.0, *date, self.symbols[s].clone());
+                        }
+                    }
+                }
+                return p;
+            }
+        }
         for (d, date) in self.dates.iter().enumerate() {
             for (s, sym) in self.symbols.iter().enumerate() {
                 if let Some((bid, ask)) = self.rows[d][s] {
@@ -78,6 +97,7 @@ impl DatasetSpec {
             symbols: self.symbols.clone(),
             dates: self.dates[..keep].to_vec(),
             rows: self.rows[..keep].to_vec(),
+            by_symbol: self.by_symbol,
         }
     }
 }
@@ -127,6 +147,7 @@ pub struct WorldStats {
     pub crossed: u64,
     pub late_start: u64,
     pub early_end: u64,
+    pub by_symbol: u64,
 }
 
 pub fn gen_dataset(rng: &mut Rng, name: &str, cfg: &WorldCfg, st: &mut WorldStats) -> DatasetSpec {
@@ -249,10 +270,15 @@ pub fn gen_dataset(rng: &mut Rng, name: &str, cfg: &WorldCfg, st: &mut WorldStat
             st.gaps = st.gaps.saturating_sub(1);
         }
     }
+    let by_symbol = nsym > 1 && rng.one_in(3);
+    if by_symbol {
+        st.by_symbol += 1;
+    }
     DatasetSpec {
         name: name.to_string(),
         symbols,
         dates,
         rows,
+        by_symbol,
     }
 }
